@@ -415,7 +415,7 @@ fn one_case(ctx: &mut Ctx, case: u64, rng: &mut Rng, log: &mut Vec<String>) {
 }
 
 /// Well-formedness of the persisted tree + agreement with the model's key set.
-fn structure(tree: &BTreeIndex, model: &BTreeMap<Key, Vec<usize>>) -> Option<(String, serde_json::Value)> {
+pub fn structure(tree: &BTreeIndex, model: &BTreeMap<Key, Vec<usize>>) -> Option<(String, serde_json::Value)> {
     let nodes = match tree.verif_dump() {
         Ok(n) => n,
         Err(e) => return Some(("dump-error".into(), json!({"err": e.to_string(), "note": "a node could not be read back as the kind its depth requires (non-uniform leaf depth or corrupt page)"}))),
